@@ -17,11 +17,14 @@ RULE = (
     "(result order, receiver unchanged or = model for inplace, clash => exception + receiver unchanged, "
     "independence probe on every out-of-place result); workload = all ordered pairs of the ordered subsets of a "
     "4-letter universe x 8 binary operators (exhaustive) + random histories of in-place/out-of-place operations on a "
-    "pool of sets with arrays built from them; a configuration is (operation, receiver letters, argument letters, inplace); "
+    "pool of sets with arrays built from them (every third history over a 10-letter alphabet with up to 9 dimensions per set and names differing only by case or a suffix); a configuration is (operation, receiver letters, argument letters, inplace); "
     "distinct_nontrivial counts distinct such signatures with a non-empty receiver or argument"
 )
 
 ALPHA = [("a", "alpha", (1, 2)), ("b", "beta", ("x", "y", "z")), ("c", "gamma", (10, 20)), ("d", "delta", ("p", "q")), ("e", "epsil", (7, 8, 9))]
+# wider alphabet for every third history: more dimensions per set (up to 9), names that are
+# look-alikes of other names (case, suffix), a size-1 and a longer dimension
+ALPHA_WIDE = ALPHA + [("f", "ab", ("only",)), ("g", "alpha 2", tuple(range(1990, 2003))), ("h", "Alpha", ("u", "v")), ("T", "time", (0, 1)), ("t", "Time", (2000, 2001, 2002))]
 
 
 def mkdims(fd):
@@ -118,12 +121,15 @@ def run_history(rec, hub, D, seed, shard, nshards, tier, h, length):
     fd = hub.fd
     rng = case_rng(seed, "c14.history", shard, h)
     rec.set_case(driver="c14.history", seed=seed, shard=shard, nshards=nshards, tier=tier, idx=h, length=length)
-    letters = list("abcde")
+    wide = h % 3 == 2
+    if wide:
+        D = {l: fd.Dimension(letter=l, name=n, items=list(it)) for l, n, it in ALPHA_WIDE}
+    letters = list(D.keys())
     # clashing twins: same letter, other name/items
     twins = {l: fd.Dimension(letter=l, name=f"twin {l}", items=["t1", "t2", "t3"]) for l in letters}
 
     def fresh_set():
-        k = rng.randint(0, 4)
+        k = rng.randint(0, 7 if wide else 4)
         ls = rng.sample(letters, k)
         return fd.DimensionSet(dim_list=[D[l] for l in ls]), LDimSet([O.dkey(D[l]) for l in ls])
 
